@@ -1,5 +1,6 @@
 """C03 -- query expressions mean what was built: no precedence capture, NULL logic kept."""
 import itertools
+import json
 import re
 from fractions import Fraction
 
@@ -485,6 +486,26 @@ def random_cases(rng, n, maxdepth, subq=True):
     return out
 
 
+def shared_cases(rng, n, maxdepth=4):
+    """one condition used twice in a filter, plain and negated: `cond = ...; OR(cond, NOT(cond))`.  The harness builds equal
+    sub-trees as ONE Python object, so a builder that changes its argument shows up in the rows selected"""
+    out = []
+    g = Gen(rng, True)
+    while len(out) < n:
+        t = g.expr('b', rng.choice(range(1, maxdepth + 1)))
+        u = g.expr('b', rng.choice(range(1, 3)))
+        e = rng.choice([
+            lambda: ['OR', [t, ['NOT', t]]], lambda: ['AND', [['NOT', t], t]], lambda: ['bin', '|', ['un', '~', t], t],
+            lambda: ['AND', [t, u, t]], lambda: ['OR', [['NOT', t], u, ['NOT', t]]], lambda: ['bin', '&', t, ['un', '~', ['NOT', t]]],
+            lambda: ['OR', [['AND', [t, u]], ['AND', [['NOT', t], u]]]], lambda: ['AND', [['OR', [u, t]], ['NOT', ['OR', [u, t]]]]],
+            lambda: ['NOT', ['OR', [['NOT', t], t]]],
+        ])()
+        c = finish(rng, e)
+        if c is not None:
+            out.append(c)
+    return out
+
+
 # every operand kind, with its type
 def operand_kinds():
     n0, n1 = ['col', 'n', 0], ['col', 'n', 1]
@@ -673,9 +694,11 @@ def generate(rng, tier):
     out = shape_pairs(rng)
     if tier == 'quick':
         out += random_cases(rng, 2500, 7)
+        out += shared_cases(rng, 400)
         out += malformed_cases(rng, 150)
     else:
         out += random_cases(rng, 40000, 8)
+        out += shared_cases(rng, 4000)
         out += malformed_cases(rng, 1500)
     return out
 
@@ -684,6 +707,7 @@ def search_cases(rng, tier):
     out = shape_pairs(rng)
     out += random_cases(rng, 6000, 6)
     out += random_cases(rng, 2000, 3)
+    out += shared_cases(rng, 1500)
     return out
 
 
@@ -729,7 +753,17 @@ def run_impl(cases):
     UN = {'-': operator.neg, '+': operator.pos, '~': operator.invert}
     CMPOPS = ('=', '<>', '<', '<=', '>', '>=')
 
-    def build(t):
+    def build(t, memo=None):
+        """equal sub-trees become ONE Python object (`cond = ...; OR(cond, NOT(cond))`): builders must not change
+        their arguments, so sharing is harmless on a correct library"""
+        if memo is None:
+            return build1(t, build)
+        key = json.dumps(t, sort_keys=True, default=repr)
+        if key not in memo:
+            memo[key] = build1(t, lambda x: build(x, memo))
+        return memo[key]
+
+    def build1(t, build):
         k = t[0]
         if k == 'col':
             return getattr(C03t.q, '%s%d' % (t[1], t[2]))
@@ -758,6 +792,23 @@ def run_impl(cases):
         if k == 'NOTINSUB':
             return sb.NOTIN(build(t[1]), sb.Select(U[t[2]].q.v))
         raise ValueError(k)
+
+    def aside(nodes):
+        """build (and render) other expressions FROM the nodes of the case's expression and throw them away: what a program
+        does that derives several filters from one condition.  Nothing of this may change the expression itself."""
+        exprs = [n for n in nodes if isinstance(n, sb.SQLExpression)]
+        step = max(1, len(exprs) // 10)
+        for n in exprs[::step][:12]:
+            for f in (sb.NOT, operator.invert, operator.neg, sb.ISNULL, sb.ISNOTNULL, lambda x: sb.IN(x, [1, 2]),
+                      lambda x: sb.NOTIN(x, [1]), lambda x: x == None, lambda x: x != None,  # noqa
+                      lambda x: sb.AND(x, x), lambda x: sb.OR(x, sb.NOT(x)), lambda x: x + 1, lambda x: 1 - x,
+                      lambda x: sb.IN(x, sb.Select(C03u0.q.v)), lambda x: sb.DESC(x) if hasattr(sb, 'DESC') else x):
+                try:
+                    r = f(n)
+                    sqlrepr(r, 'sqlite')
+                    sqlrepr(r, 'postgres')
+                except Exception:   # noqa
+                    pass
 
     def captured(e, acc):
         """comparisons whose right operand is an IN-subquery with a parenthesised item (the shape that was captured
@@ -790,8 +841,9 @@ def run_impl(cases):
                 for v in c['subs'][k]:
                     cur.execute('INSERT INTO c03u%d (v) VALUES (?)' % k, [v])
             raw.commit()
+            memo = {}
             try:
-                e = build(c['e'])
+                e = build(c['e'], memo)
             except Exception as ex:
                 out.append({'build_error': type(ex).__name__})
                 continue
@@ -802,6 +854,17 @@ def run_impl(cases):
                 except Exception as ex:
                     o['texts'][d] = None
                     o['text_error'] = type(ex).__name__
+            # other expressions built from the same nodes, then the same expression rendered again
+            aside(list(memo.values()))
+            again = {}
+            for d in DIALECT_NAMES:
+                try:
+                    again[d] = sqlrepr(e, d)
+                except Exception:   # noqa
+                    again[d] = None
+            o['stable'] = again == o['texts']
+            if not o['stable']:
+                o['texts_again'] = again
             try:
                 sel = C03t.select(e)
                 o['query'] = str(sel)
@@ -949,6 +1012,10 @@ def oracle(c, o):
         return None
     if not c['typed']:
         return None
+    if o.get('stable') is False:
+        d = [k for k in DIALECT_NAMES if (o.get('texts_again') or {}).get(k) != (o.get('texts') or {}).get(k)][0]
+        return {'what': 'building other expressions from its nodes changed the expression: the %s text was %s and is now %s' % (
+            d, o['texts'][d], o['texts_again'][d])}
     want = expected_ids(c)
     if o.get('ids') is None:
         return {'expected': want, 'actual': None,
